@@ -47,13 +47,15 @@ func init() {
 	register("C20", "other", func(c *Ctx) {
 		skeletonExplain(c, "C20 (one mock per requested interface, named as requested, independent): in every skeleton with 1..2 (thorough: 3) mocks the top-level type declarations are exactly the mock names in argument order; the generator side (argument parsing table, index-preserving construction of the mock list, fresh method scope per method, no package-level state) is checked on the generator's source.")
 		c.Run.Floor("K-DECLS/types", 1)
-		c.RunSkeletons(SkelOpts{Rules: []string{"K-DECLS/types", "K-DECLS/extra", "K-MSET/unexpected", "G-DATA/mocks", "G-DATA/methods/count", "G-SCOPE", "G-MOCK/lookups", "G-MOCK/infrastructure-imports-last", "G-MOCK/accepts"}})
+		c.RunSkeletons(SkelOpts{Rules: []string{"K-DECLS/types", "K-DECLS/extra", "K-MSET/unexpected", "G-DATA/mocks", "G-DATA/methods/count", "G-SCOPE", "G-MOCK/lookups", "G-MOCK/infrastructure-imports-last", "G-MOCK/accepts", "G-MOCK/qualifier-final"}})
+		c.Run.Floor("G-MOCK/qualifier-final", 1)
 		genMocks(c)
 	})
 	register("C01", "other", func(c *Ctx) {
 		skeletonExplain(c, "C01 (generated source compiles in its destination package) — necessary conditions only: (1) every skeleton of the family type-checks in both destination modes, incl. unused/missing imports under every flag combination; (2) import discovery handles every type constructor the type printer can print; (3) every type text is printed with the file's qualifier; (4) template and data model agree (every field chain resolves in some environment, all template nodes are reached); (5) declared-name patterns that can collide.")
 		c.Run.Floor("K-TYPE", 1)
-		c.RunSkeletons(SkelOpts{Rules: []string{"K-TYPE", "K-NAMES", "K-DECLS/extra", "K-MSET/unexpected", "K-MSET/field", "K-IMPORTS", "G-DATA/imports", "G-DATA/pkgname", "G-DATA/src-qualifier", "G-SCOPE"}, Notes: []string{"G-RENDER", "H-PANIC"}, TypeErrIsOwn: true})
+		c.RunSkeletons(SkelOpts{Rules: []string{"K-TYPE", "K-NAMES", "K-DECLS/extra", "K-MSET/unexpected", "K-MSET/field", "K-IMPORTS", "G-DATA/imports", "G-DATA/pkgname", "G-DATA/src-qualifier", "G-SCOPE", "G-MOCK/qualifier-final"}, Notes: []string{"G-RENDER", "H-PANIC"}, TypeErrIsOwn: true})
+		c.Run.Floor("G-MOCK/qualifier-final", 1)
 		genCompile(c)
 	})
 	_ = strings.HasPrefix
